@@ -422,6 +422,17 @@ class CRef:
             for fn in self.dm.cpp_functions:
                 if fn["name"] == name and "py_lambda" in fn:
                     return fn["py_lambda"](self, [self.ev(x, env) for x in n.args])
+            if name in ("int", "float", "max", "min") and n.args:
+                av = [self.ev(x, env) for x in n.args]
+                if name == "float" and len(av) == 1:
+                    return ("double", float(av[0][1]))
+                if name == "int" and len(av) == 1:
+                    return ("int", int(av[0][1]))
+                if name in ("max", "min") and len(av) == 2:
+                    kind = "int" if all(x[0] in ("int", "bool") for x in av) else "double"
+                    v = (max if name == "max" else min)(av[0][1], av[1][1])
+                    return (kind, int(v) if kind == "int" else float(v))
+                raise Unspecified()
             if name in mathfn.DOCUMENTED:
                 av = [self.ev(x, env) for x in n.args]
                 if name == "abs" and len(av) == 1 and av[0][0] in ("int", "bool"):
